@@ -9,3 +9,7 @@ def part():
     p = os.environ.get('VERIF_PART', '0/1')
     i, n = p.split('/')
     return int(i), int(n)
+
+
+def tier():
+    return os.environ.get('VERIF_TIER', 'quick')
